@@ -4,6 +4,14 @@
   that parses to the second document (separator placement aside).  The rendering carries no change marks exactly
   when the documents are equal."
 
+  SCOPE.  The statement is about the COLOUR rendering (`Printer(ansi_color=True)`): the marks are the combining
+  strike / under-plus characters and the red / green background of the ANSI output, recovered by the `render` stream
+  (without colour `Match.print` / `Replace.print` write `old -> new` with no marks at all, so nothing could be
+  projected).  "Parses to" is stated with a JSON TOKENIZER, not a full JSON parser: the projection and the canonical
+  text of the document have the same token structure (strings as single tokens, `[ ] { } :`, literals; commas ignored),
+  given as a token tree `Val`; that two JSON texts with the same token tree denote the same data is not formalised
+  (the stream's monitor does parse both projections of the real output with `json.loads` and compares them as data).
+
   Model: `GtModel.Render.render f t s` (Model/Render.lean, validated against the real JSON formatter by stream
   `render`: exact equality of the (character, mark) sequences) over the L2 script `s = edits o orc [] [] f t`.
 
@@ -14,25 +22,25 @@
     printJson f             the rendering of the unedited node (= `jsonText f`)
     treeVal f : Val         the JSON value of a node as a token tree; `(treeVal f).toks = dropCommas (tokens (printJson f))`
                             (`printJson_toks`)
-    ValSim v w              v and w are equal up to the order of the members of objects and up to replacing a subtree
-                            by a node-equal one (`Tree.eq`, graphtage's `==`): the least equivalence that contains
-                            `Tree.eq`, is a congruence for lists / members, and permutes members of `{…}`.
-                            [audit] CAUTION: the gloss "equal up to member order / node-equal subtrees" is NOT what this
-                            relation is.  `eqv` takes arbitrary trees and `Tree.eq` is asymmetric on mappings with
-                            duplicate keys, so the closure relates ANY two objects with the same number (≥ 2) of
-                            members, e.g. {"a":1,"b":2} ~ {"c":"x","d":[null]} (`audit_valSim_loose` at the end of this
-                            file).  (1)/(2) therefore do not pin down keys or values of objects with ≥ 2 members.
+    ValPerm v w             v and w are equal up to the ORDER of the members of objects, recursively: the least
+                            equivalence that is a congruence for members (same key), lists (element-wise, in order) and
+                            objects (element-wise after a permutation of the members).  Nothing else is identified:
+                            related values have the same multiset of tokens (`ValPerm.toks_perm`), atoms are related
+                            only to themselves (`ValPerm.atom_eq`); see the examples at the end (a reordered object is
+                            accepted, two objects with different members are rejected).
                             (Needed because a mapping's pairs are printed in EDIT order — matched pairs first, then
-                            removals, then insertions — and because a zero-cost Match prints the to-node / the cost gate
-                            prints the from-node, which are node-equal but, inside mappings, possibly ordered
-                            differently.)
+                            removals, then insertions — on both sides; and a zero-cost Match prints the to-node, the
+                            cost gate the from-node: node-equal trees, which for trees with distinct keys are
+                            `ValPerm`-related, `Render.eq_valPerm`.)
     hasMark r               some character of the rendering is not plain
 
   PROVED, for all options `o`, all oracles (assignment-solver answers) `orc`, all trees whose mappings have distinct
   keys (`Tree.KeysDistinct`, what `build` produces) and whose float leaves carry a literal repr (`litOK`):
-    (1) `project_from` : ∃ v, ValSim v (treeVal f) ∧ dropCommas (tokens (projFrom (render f t (edits o orc [] [] f t)))) = v.toks
-    (2) `project_to`   : ∃ v, ValSim v (treeVal t) ∧ dropCommas (tokens (projTo   (render f t (edits o orc [] [] f t)))) = v.toks
+    (1) `project_from` : ∃ v, ValPerm v (treeVal f) ∧ dropCommas (tokens (projFrom (render f t (edits o orc [] [] f t)))) = v.toks
+    (2) `project_to`   : ∃ v, ValPerm v (treeVal t) ∧ dropCommas (tokens (projTo   (render f t (edits o orc [] [] f t)))) = v.toks
         each together with `dropCommas (tokens (printJson f)) = (treeVal f).toks`;
+        corollaries without `Val`: `project_from_tokens` / `project_to_tokens` — the comma-less token list of the
+        projection is a permutation of that of the document's canonical text;
     (3) `marks_iff`    : hasMark (render f t (edits o orc [] [] f t)) = true ↔ f.eq t = false
     and for whole documents (`diffDocs`, `Doc.distinctKeys`, `Doc.floatsOK`): `project_from_docs`, `project_to_docs`,
     `marks_iff_docs` (… ↔ the documents differ as data, `Doc.dataEq`).
@@ -41,12 +49,11 @@
   `print_SequenceNode` two surviving items are always separated by a surviving comma or the start symbol),
   `Render.script_wellformed` (Proofs/RenderEdits: the engine's script is well formed — from C01's index accounting
   `fixedScript_idx`/`edScript_idx`/`msScript_fromIdx`/`msScript_toIdx`/`fkScript_*`/`strSubs_idx`, the unfolding lemmas
-  of `edits`, the trimmed prefix/suffix of EditDistance being node-equal, and C02 `zero_cost_iff_eq` for the cost
-  gates), `Render.positive_cost_shows` (Proofs/RenderMarks: with C03 `reported_eq_sum` an edit of positive cost has a
-  sub-edit of positive cost, down to a Match/Replace (arrow), a Remove/Insert (every node prints ≥ 1 character) or a
-  string edit between different strings) and `Render.zero_cost_is_match`.
-  Also kept: `project_from_wf` / `project_to_wf` / `projection_is_value` for EVERY well-formed script, and the
-  `_checked` variants with the decidable hypothesis `scriptOKB … = true` that the driver evaluates on every stream case.
+  of `edits`, the trimmed prefix/suffix of EditDistance being node-equal, `eq_valPerm`, and C02 `zero_cost_iff_eq` for
+  the cost gates), `Render.positive_cost_shows` (Proofs/RenderMarks: with C03 `reported_eq_sum` an edit of positive
+  cost has a sub-edit of positive cost, down to a Match/Replace (arrow), a Remove/Insert (every node prints ≥ 1
+  character) or a string edit between different strings) and `Render.zero_cost_is_match`.
+  Also kept: `project_from_wf` / `project_to_wf` / `projection_is_value` for EVERY well-formed script (`Render.WF`).
 -/
 import GtModel.Proofs.RenderMarks
 
@@ -64,14 +71,14 @@ theorem printJson_toks (f : Tree) (hf : litOK f = true) : dropCommas (tokens (pr
 /-- (1) for every well-formed script -/
 theorem project_from_wf (f t : Tree) (s : Script) (hf : litOK f = true) (ht : litOK t = true)
     (hs : ScriptWellFormed f t s) :
-    ∃ v, ValSim v (treeVal f) ∧ dropCommas (tokens (projFrom (render f t s))) = v.toks := by
+    ∃ v, ValPerm v (treeVal f) ∧ dropCommas (tokens (projFrom (render f t s))) = v.toks := by
   obtain ⟨_, v, hv, hT⟩ := render_spec f t s hf ht hs.1 hs.2 true
   exact ⟨v, hv, hT⟩
 
 /-- (2) for every well-formed script -/
 theorem project_to_wf (f t : Tree) (s : Script) (hf : litOK f = true) (ht : litOK t = true)
     (hs : ScriptWellFormed f t s) :
-    ∃ v, ValSim v (treeVal t) ∧ dropCommas (tokens (projTo (render f t s))) = v.toks := by
+    ∃ v, ValPerm v (treeVal t) ∧ dropCommas (tokens (projTo (render f t s))) = v.toks := by
   obtain ⟨_, v, hv, hT⟩ := render_spec f t s hf ht hs.1 hs.2 false
   exact ⟨v, hv, hT⟩
 
@@ -89,7 +96,7 @@ theorem script_wellformed (o : Opts) (orc : Oracle) (fp tp : List Nat) (f t : Tr
 /-- (1) deleting everything inserted leaves the first document -/
 theorem project_from (o : Opts) (orc : Oracle) (f t : Tree) (hf : f.KeysDistinct) (ht : t.KeysDistinct)
     (hlf : litOK f = true) (hlt : litOK t = true) :
-    ∃ v, ValSim v (treeVal f) ∧
+    ∃ v, ValPerm v (treeVal f) ∧
       dropCommas (tokens (projFrom (render f t (edits o orc [] [] f t)))) = v.toks ∧
       dropCommas (tokens (printJson f)) = (treeVal f).toks := by
   obtain ⟨v, hv, hT⟩ := project_from_wf f t _ hlf hlt (script_wellformed o orc [] [] f t hf ht)
@@ -98,29 +105,26 @@ theorem project_from (o : Opts) (orc : Oracle) (f t : Tree) (hf : f.KeysDistinct
 /-- (2) deleting everything removed leaves the second document -/
 theorem project_to (o : Opts) (orc : Oracle) (f t : Tree) (hf : f.KeysDistinct) (ht : t.KeysDistinct)
     (hlf : litOK f = true) (hlt : litOK t = true) :
-    ∃ v, ValSim v (treeVal t) ∧
+    ∃ v, ValPerm v (treeVal t) ∧
       dropCommas (tokens (projTo (render f t (edits o orc [] [] f t)))) = v.toks ∧
       dropCommas (tokens (printJson t)) = (treeVal t).toks := by
   obtain ⟨v, hv, hT⟩ := project_to_wf f t _ hlf hlt (script_wellformed o orc [] [] f t hf ht)
   exact ⟨v, hv, hT, printJson_toks t hlt⟩
 
-/-- (1) and (2) for every input on which the executable check `scriptOKB` passes (no hypothesis on keys).  The driver
-    evaluates the check (and `litOK`) on every case of the `render` stream. -/
-theorem project_from_checked (o : Opts) (orc : Oracle) (f t : Tree) (hf : litOK f = true) (ht : litOK t = true)
-    (hcheck : scriptOKB f t (edits o orc [] [] f t) = true) :
-    ∃ v, ValSim v (treeVal f) ∧
-      dropCommas (tokens (projFrom (render f t (edits o orc [] [] f t)))) = v.toks ∧
-      dropCommas (tokens (printJson f)) = (treeVal f).toks := by
-  obtain ⟨v, hv, hT⟩ := project_from_wf f t _ hf ht (scriptOKB_sound f t _ hcheck)
-  exact ⟨v, hv, hT, printJson_toks f hf⟩
+/-- (1) without `Val`: the comma-less tokens of the from-projection are those of the first document's canonical text,
+    up to their order (which only the reordering of object members can change) -/
+theorem project_from_tokens (o : Opts) (orc : Oracle) (f t : Tree) (hf : f.KeysDistinct) (ht : t.KeysDistinct)
+    (hlf : litOK f = true) (hlt : litOK t = true) :
+    (dropCommas (tokens (projFrom (render f t (edits o orc [] [] f t))))).Perm (dropCommas (tokens (printJson f))) := by
+  obtain ⟨v, hv, hT, hP⟩ := project_from o orc f t hf ht hlf hlt
+  rw [hT, hP]; exact hv.toks_perm
 
-theorem project_to_checked (o : Opts) (orc : Oracle) (f t : Tree) (hf : litOK f = true) (ht : litOK t = true)
-    (hcheck : scriptOKB f t (edits o orc [] [] f t) = true) :
-    ∃ v, ValSim v (treeVal t) ∧
-      dropCommas (tokens (projTo (render f t (edits o orc [] [] f t)))) = v.toks ∧
-      dropCommas (tokens (printJson t)) = (treeVal t).toks := by
-  obtain ⟨v, hv, hT⟩ := project_to_wf f t _ hf ht (scriptOKB_sound f t _ hcheck)
-  exact ⟨v, hv, hT, printJson_toks t ht⟩
+/-- (2) without `Val` -/
+theorem project_to_tokens (o : Opts) (orc : Oracle) (f t : Tree) (hf : f.KeysDistinct) (ht : t.KeysDistinct)
+    (hlf : litOK f = true) (hlt : litOK t = true) :
+    (dropCommas (tokens (projTo (render f t (edits o orc [] [] f t))))).Perm (dropCommas (tokens (printJson t))) := by
+  obtain ⟨v, hv, hT, hP⟩ := project_to o orc f t hf ht hlf hlt
+  rw [hT, hP]; exact hv.toks_perm
 
 /-- non-vacuity of the tree-level hypotheses: a nested tree with a mapping, a float and a string -/
 example :
@@ -172,7 +176,7 @@ theorem build_kd' (o : Opts) (d : Doc) (h : d.distinctKeys = true) : (build o d)
 /-- (1) for whole documents: objects with distinct keys (what every JSON parser delivers) -/
 theorem project_from_docs (o : Opts) (orc : Oracle) (a b : Doc) (ha : a.distinctKeys = true) (hb : b.distinctKeys = true)
     (hfa : a.floatsOK = true) (hfb : b.floatsOK = true) :
-    ∃ v, ValSim v (treeVal (build o a)) ∧
+    ∃ v, ValPerm v (treeVal (build o a)) ∧
       dropCommas (tokens (projFrom (render (build o a) (build o b) (diffDocs o orc a b)))) = v.toks ∧
       dropCommas (tokens (printJson (build o a))) = (treeVal (build o a)).toks :=
   project_from o orc _ _ (build_kd' o a ha) (build_kd' o b hb) (build_litOK o a hfa) (build_litOK o b hfb)
@@ -180,7 +184,7 @@ theorem project_from_docs (o : Opts) (orc : Oracle) (a b : Doc) (ha : a.distinct
 /-- (2) for whole documents -/
 theorem project_to_docs (o : Opts) (orc : Oracle) (a b : Doc) (ha : a.distinctKeys = true) (hb : b.distinctKeys = true)
     (hfa : a.floatsOK = true) (hfb : b.floatsOK = true) :
-    ∃ v, ValSim v (treeVal (build o b)) ∧
+    ∃ v, ValPerm v (treeVal (build o b)) ∧
       dropCommas (tokens (projTo (render (build o a) (build o b) (diffDocs o orc a b)))) = v.toks ∧
       dropCommas (tokens (printJson (build o b))) = (treeVal (build o b)).toks :=
   project_to o orc _ _ (build_kd' o a ha) (build_kd' o b hb) (build_litOK o a hfa) (build_litOK o b hfb)
@@ -229,7 +233,7 @@ example : ScriptWellFormed l12 l1 listS := by
   simp only [listS, WF, WFSubs]
   refine ⟨⟨91, 93, rfl, rfl, ?_⟩, ⟨_, _, rfl, ?_⟩, ⟨_, _, rfl, trivial⟩, trivial⟩
   · simp only [if_true]
-    exact ⟨ValSimL.refl' _, ValSimL.refl' _⟩
+    exact ⟨ValPermL.refl' _, ValPermL.refl' _⟩
   · exact Or.inr (.refl _)
 
 /-- a script that loses an element is NOT well formed (so the hypothesis says something) -/
@@ -246,43 +250,30 @@ example : ¬ ScriptWellFormed l12 l1 (.mk .ed .none .none 0 [.mk .match_ (.at 0)
   cases h1 with
   | cons _ h2 => cases h2
 
-/-! ### [audit] additions -/
+/-! ### what `ValPerm` accepts and what it rejects -/
 
--- [audit] non-vacuity: the end-to-end theorems applied to a concrete nested pair of documents
--- (`[1, {"a": "xy"}]` → `[{"a": "xz", "b": null}]`: a Remove, a MultiSetEdit with a KeyValuePairEdit / StringEdit, an Insert)
-def auditF : Tree := .list [.leaf (.int 1), .dict [([97], .leaf (.str [120, 121]))]]
-def auditG : Tree := .list [.dict [([97], .leaf (.str [120, 122])), ([98], .leaf .null)]]
-example := project_from {} [] auditF auditG (by decide) (by decide) (by decide) (by decide)
-example := project_to {} [] auditF auditG (by decide) (by decide) (by decide) (by decide)
-example := marks_iff {} [] auditF auditG (by decide) (by decide) (by decide) (by decide)
+/-- `{"a": 1, "b": 2}` -/
+def objAB : Tree := .dict [([97], .leaf (.int 1)), ([98], .leaf (.int 2))]
+/-- `{"b": 2, "a": 1}` -/
+def objBA : Tree := .dict [([98], .leaf (.int 2)), ([97], .leaf (.int 1))]
+/-- `{"c": "x", "d": [null]}` -/
+def objCD : Tree := .dict [([99], .leaf (.str [120])), ([100], .list [.leaf .null])]
 
--- [audit] `ValSim` is much weaker than "equal up to member order and node-equal subtrees": `Tree.eq` on mappings with
--- DUPLICATE keys is not symmetric (`subKV` only checks that every pair of the left operand occurs on the right), and
--- the `eqv` constructor accepts arbitrary trees, so the equivalence closure links any two objects of the same size ≥ 2:
---   {"a":1,"b":2} ~ {"a":1,"a":1} ~ {"a":1,"c":"x"} ~ {"c":"x","c":"x"} ~ {"c":"x","d":[null]}
--- Both end points have distinct keys, satisfy `litOK`, and are different documents (`Tree.eq` false).
-def auditA : Tree := .dict [([97], .leaf (.int 1)), ([98], .leaf (.int 2))]
-def auditB : Tree := .dict [([99], .leaf (.str [120])), ([100], .list [.leaf .null])]
+/-- the same object with its members in another order is accepted -/
+example : ValPerm (treeVal objAB) (treeVal objBA) := by
+  simp only [objAB, objBA, treeVal, valKV]
+  exact .map (.permL (List.Perm.swap _ _ _) (.cons (.refl _) (.cons (.refl _) .nil)))
 
-example : auditA.KeysDistinct ∧ auditB.KeysDistinct ∧ litOK auditA = true ∧ litOK auditB = true := by decide
-example : auditA.eq auditB = false := by simp [auditA, auditB, Tree.eq, subKV, findKV]
-
-theorem audit_valSim_loose : ValSim (treeVal auditB) (treeVal auditA) := by
-  have h1 : ValSim (treeVal (.dict [([97], .leaf (.int 1)), ([97], .leaf (.int 1))])) (treeVal auditA) :=
-    .eqv (by simp [auditA, Tree.eq, subKV, findKV, Scalar.eq])
-  have h2 : ValSim (treeVal (.dict [([97], .leaf (.int 1)), ([97], .leaf (.int 1))]))
-      (treeVal (.dict [([97], .leaf (.int 1)), ([99], .leaf (.str [120]))])) :=
-    .eqv (by simp [Tree.eq, subKV, findKV, Scalar.eq])
-  have h3 : ValSim (treeVal (.dict [([99], .leaf (.str [120])), ([99], .leaf (.str [120]))]))
-      (treeVal (.dict [([97], .leaf (.int 1)), ([99], .leaf (.str [120]))])) :=
-    .eqv (by simp [Tree.eq, subKV, findKV, Scalar.eq])
-  have h4 : ValSim (treeVal (.dict [([99], .leaf (.str [120])), ([99], .leaf (.str [120]))])) (treeVal auditB) :=
-    .eqv (by simp [auditB, Tree.eq, subKV, findKV, Scalar.eq])
-  exact .trans (.symm h4) (.trans h3 (.trans (.symm h2) h1))
-
--- [audit] hence the CONCLUSION of `project_from` for the first document `{"a":1,"b":2}` is already satisfied by the
--- canonical text of the unrelated document `{"c":"x","d":[null]}`: the theorem does not pin down the members of objects
-example : ∃ v, ValSim v (treeVal auditA) ∧ dropCommas (tokens (printJson auditB)) = v.toks :=
-  ⟨treeVal auditB, audit_valSim_loose, printJson_toks auditB (by decide)⟩
+/-- two objects with the same number of members but different members are REJECTED (the pair that the earlier,
+    too loose relation identified) -/
+example : ¬ ValPerm (treeVal objAB) (treeVal objCD) := by
+  intro h
+  have hp := h.toks_perm
+  have hmem : Tok.str [97] ∈ (treeVal objAB).toks := by
+    simp [objAB, treeVal, valKV, Val.toks, toksL, escStr, escChar]
+  have hnot : Tok.str [97] ∉ (treeVal objCD).toks := by
+    simp [objCD, treeVal, valKV, valL, Val.toks, toksL, escStr, escChar, T, tokens, run, step, flush, dropCommas,
+      scalarText, quote, strOfString, isPunct]
+  exact hnot (hp.mem_iff.1 hmem)
 
 end GtModel.C06
